@@ -315,7 +315,7 @@ func VerifC03_MemoryBoundWithoutDirectory() {
 	k := 4 + sym.Choice("extraChunks", 2)
 	for i := 0; i < k; i++ {
 		buf.Accept(base.LogChunk{ID: verifIDs[i], Data: []byte{1, 2, 3}}) // must never block
-		time.Sleep(time.Second)                                          // quiescence: the feeder has moved what it can
+		time.Sleep(time.Second)                                           // quiescence: the feeder has moved what it can
 		inMemory := len(buf.inputChannel) + len(buf.feeder.outputChannel) + 1
 		sym.Assert(inMemory <= defs.BufferMaxNumChunksInMemory+1+defs.BufferMaxNumChunksInMemory/2,
 			"with no queue directory and a stalled consumer the chunks kept in memory stay within the memory window (plus the one in the feeder's hands and the half-window slack of Accept)")
